@@ -76,6 +76,7 @@ def check(ctx):
     spkm_encrypt(ctx, P)
     crypted_key_record(ctx, P)
     master_key_record(ctx, P)
+    provider_cache(ctx, P)
 
 
 def master_key_record(ctx, P):
@@ -319,3 +320,31 @@ def crypted_key_record(ctx, P):
         if st.get("k") == "ret" and match(["bool", True], st.get("v")):
             ctx.ob("WriteCryptedDescriptorKey/success@L%s" % st.get("l"), "ORDER", "WriteCryptedDescriptorKey reports success only after the encrypted write succeeded and the plaintext "
                    "record was erased", "written" in state and "erased" in state, "%s:%s" % (f.file, st.get("l")))
+
+
+# ------------------------------------------------------------------------------------------------
+def provider_cache(ctx, P):
+    """The per-index signing-provider cache of a descriptor manager outlives Lock() (nothing clears it), so it must never hold
+    private keys: in GetSigningProvider(index, include_private) the object stored into m_map_signing_providers is stored before
+    any private key is expanded into it (ExpandPrivate / key-map additions come after the store on every path)."""
+    SPKM = "wallet::DescriptorScriptPubKeyMan::"
+    FIELD = SPKM + "m_map_signing_providers"
+    fs = [g for g in P.fns(SPKM + "GetSigningProvider") if len(g.params) == 2 and any("int" in (p_["ty"] or "") for p_ in g.params[:1])]
+    if len(fs) != 1:
+        raise AnalysisBroken("DescriptorScriptPubKeyMan::GetSigningProvider(index, include_private) not found")
+    f = ctx.used(fs[0])
+    is_store = lambda e: (e[0] in ("b", "opcall") and e[1] in ASSIGN_OPS and contains([".", ["this"], FIELD], e[2 if e[0] == "b" else 3])) or \
+        (e[0] in ("mcall", "vcall") and str(e[1]).rsplit("::", 1)[-1] in ("emplace", "insert", "try_emplace", "insert_or_assign") and contains([".", ["this"], FIELD], e[2]))
+    is_priv = lambda e: e[0] in ("mcall", "vcall") and str(e[1]).rsplit("::", 1)[-1] in ("ExpandPrivate",) or \
+        (e[0] in ("mcall", "vcall") and str(e[1]).rsplit("::", 1)[-1] in ("emplace", "insert", "merge", "operator[]") and contains([".", ANY, "FlatSigningProvider::keys"], e[2]))
+    from sa.engine.paths import MayFlow as EngineMayFlow      # (this module has a local MayFlow of its own)
+    mf = EngineMayFlow(f, P, gens=[("private", is_priv)])
+    mf.watch = is_store
+    mf.run()
+    ctx.floor("GetSigningProvider cache stores", len(mf.events), 1)
+    for e, state, st in mf.events:
+        ctx.ob("GetSigningProvider/cache-holds-no-private-keys@L%s" % st.get("l"), "ORDER", "the signing provider is stored in the per-index cache (which Lock() does not clear) only "
+               "before any private key was expanded into it", "private" not in state, "%s:%s" % (f.file, st.get("l")))
+    w = sorted({g_.q.rsplit("::", 1)[-1] for q_, lst in P.funcs.items() if q_.startswith(SPKM) and "::lambda" not in q_ for g_ in [x.simp() for x in lst]
+                if g_.body is not None and sites(g_, is_store, P)})
+    ctx.ob("who-writes/m_map_signing_providers", "WHO-MAY-WRITE", "the signing-provider cache is filled only by GetSigningProvider", w == ["GetSigningProvider"], None, {"writers": w})
